@@ -95,9 +95,10 @@ type Attempt struct {
 	Reason      string            `json:"reason"`
 	Repeat      time.Duration     `json:"repeat"`
 	Alerts      []AttemptAlert    `json:"alerts"`
-	Outcome     string            `json:"outcome"`         // ok | recoverable | unrecoverable | ctx
-	Epoch       int               `json:"epoch"`           // instance incarnation (restart counter)
-	Entry       *NflogEntry       `json:"entry,omitempty"` // cluster mode: the sending instance's own log entry for (group, integration) at the attempt
+	Outcome     string            `json:"outcome"`            // ok | recoverable | unrecoverable | ctx
+	Epoch       int               `json:"epoch"`              // instance incarnation (restart counter)
+	Entry       *NflogEntry       `json:"entry,omitempty"`    // cluster mode: the sending instance's own log entry for (group, integration) at the attempt
+	Replaced    bool              `json:"replaced,omitempty"` // made by the pipeline of a dispatcher that had already been stopped and replaced (config reload)
 }
 
 func (a *Attempt) OK() bool { return a.Outcome == "ok" }
